@@ -27,6 +27,9 @@ def gen_case(cid, rnd, n_dbs, length, crash):
             created.append(d)
             st.append({"c": "a", "line": "create-db %s tok" % d})
             st.append({"c": "s_" + d, "line": "use-db %s tok" % d})
+        elif x < 0.31:
+            # a create-db that is refused (the name exists): nothing may change, identifiers least of all
+            st.append({"c": "a", "line": "create-db %s tok" % rnd.choice(created + ["$admin"])})
         elif x < 0.6:
             d = rnd.choice(created)
             nk += 1
@@ -74,9 +77,32 @@ def chain_case(cid, pattern, crash):
     return {"id": cid, "steps": st, "crash": crash}
 
 
+def gap_cases():
+    """databases of which only some are snapshotted (the restart leaves a gap in the identifiers), a kill with a valid
+    log, then create-db commands that are refused (existing name) or accepted (new name), writes in between"""
+    cases = []
+    for n, (snap, after) in enumerate(itertools.product(["db|dc", "dc", "da|dc", "db"],
+                                                          [["db"], ["dc"], ["$admin"], ["da"], ["db", "dd"], ["dd", "dc"]])):
+        st = steps_prefix()
+        for d in ("da", "db", "dc"):
+            st += [{"c": "a", "line": "create-db %s tok" % d}, {"c": "s_" + d, "line": "use-db %s tok" % d},
+                   {"c": "s_" + d, "line": "set k%s v" % d}]
+        st += [{"c": "a", "line": "snapshot false %s" % snap}, {"tick": 1}]
+        for d in snap.split("|"):
+            st.append({"c": "s_" + d, "line": "set k%s again" % d})      # a registered key: the log stays valid
+        st += [{"restart": 1}, {"c": "a", "line": "auth admin adminpwd"}]
+        for d in snap.split("|"):
+            st.append({"c": "s_" + d, "line": "use-db %s tok" % d})
+        for d in after:
+            st.append({"c": "a", "line": "create-db %s tok" % d})
+            st.append({"c": "s_" + snap.split("|")[-1], "line": "set k%s third" % snap.split("|")[-1]})
+        cases.append({"id": "g%d" % n, "steps": st, "crash": False})
+    return cases
+
+
 def cases_for(tier, seed):
     rnd = random.Random(seed)
-    cases = []
+    cases = gap_cases()
     n = 0
     # every history of new-key / snapshot / kill / clean-restart steps up to a length
     for length in range(1, 5 if tier == "quick" else 7):
@@ -138,7 +164,8 @@ def run(tier, seed):
                 "length 4 (6 thorough) on a snapshotted database; seeded histories of {create-db, first write of a new key, write of a shared key name, remove, "
                 "snapshot of a random subset + declutter tick, clean shutdown, restart} over 1-4 databases on a "
                 "node with its real replication loop (key ids, oplog, oplog-valid flag); the oplog is decoded "
-                "through a freshly started node after every restart, at the end, and -- for a third of the "
+                "through a freshly started node after every restart, at the end, through the RUNNING node's maps after every "
+                "create-db (accepted or refused), and -- for a third of the "
                 "histories -- on the directory image taken after every file-system call of key-id "
                 "registration, flag update, key-map write, oplog append and snapshot (%d images, %d sites); "
                 "each decode is one evaluation" % (images, len(sites)),
